@@ -31,6 +31,9 @@ pub fn specs() -> Vec<LangSpec> {
                 LOp::Add("(app (lam $1 (add (var $1) two)) (mul a 3))"),
                 LOp::Add("(let $1 (lam $2 (app (var $1) (var $2))) (var $y))"),
                 LOp::Add("(lam $1 (app f (var $1)))"),
+                // a redex whose body class loses the slot $x once (mul a (var $x)) = 0 is asserted: the substitution rule then
+                // walks the syntactic term of a class that has fewer slots than when it was created
+                LOp::Add("(app (lam $1 (mul (var $1) (mul a (var $x)))) (var $y))"),
                 LOp::Union("(add (var $x) (var $y))", "(add (var $y) (var $x))"),
                 LOp::Union("(mul a (var $x))", "0"),
                 LOp::Union("(app f (var $x))", "(app g (var $x))"),
